@@ -69,3 +69,39 @@ def scalar_pool(r, rng, per_bitlen=1):
             if 1 <= v < r:
                 out.append(v)
     return out
+
+
+# ---------------------------------------------------------------------------------------------- magic numbers of the target
+def harvest_int_literals(modnames, lo=2, hi=10 ** 9):
+    """Integer literals that occur in the SOURCE of the given modules (as a fuzzer's dictionary of magic values): chunk
+    sizes, table capacities, thresholds.  Workloads use them as lengths / counts / scalars, together with their neighbours
+    and their roundings to block sizes, because a special case in the code is usually written with such a literal."""
+    import ast
+    import importlib
+    import inspect
+    out = set()
+    for name in modnames:
+        try:
+            src = inspect.getsource(importlib.import_module(name))
+            tree = ast.parse(src)
+        except Exception:
+            continue
+        for node in ast.walk(tree):
+            if isinstance(node, ast.Constant) and isinstance(node.value, int) and not isinstance(node.value, bool):
+                if lo <= node.value <= hi:
+                    out.add(node.value)
+            elif isinstance(node, ast.BinOp) and isinstance(node.op, (ast.LShift, ast.Pow)):
+                try:
+                    v = eval(compile(ast.Expression(node), "<lit>", "eval"), {"__builtins__": {}})     # constant expressions like 1 << 14
+                    if isinstance(v, int) and lo <= v <= hi:
+                        out.add(v)
+                except Exception:
+                    pass
+    return sorted(out)
+
+
+def soak_size(modnames, default=1100, cap=6000):
+    """How many DISTINCT arguments a soak phase should push through a function so that any bounded table written with a
+    literal capacity in these modules overflows: a bit more than the largest plausible capacity literal, within a budget."""
+    lits = [v for v in harvest_int_literals(modnames, 64, cap) if v & (v - 1) == 0 or v % 100 == 0 or v % 128 == 0]
+    return max([default] + [int(v * 1.07) + 8 for v in lits if v <= cap])
